@@ -41,23 +41,40 @@ def rule_implicit_wiring(rep: Report, repo: Repo):
     rep.check(want is not None and sorted(got) == sorted(["False", want]), RULE,
               f"{MOD}::block_diagonalize implicit mode <=> the given vectors do not span the space",
               f"`{UI}` is assigned {[g[:150] for g in got]}; required False by default and (number of right vectors) < (ambient dimension)", loc(f))
+    # names by ROLE, not by spelling: the series handed to series_computation under the key 'H', and what the scope hands over
+    # under the key 'use_linear_operator'
+    sc_calls = [n for n in own_nodes(f) if isinstance(n, ast.Call) and call_name(n) == "series_computation"]
+    if len(sc_calls) != 1 or not sc_calls[0].args or not isinstance(sc_calls[0].args[0], ast.Dict):
+        raise AnalysisError(RULE, "block_diagonalize: the series_computation({'H': ...}, ...) call was not found")
+    hmap = {k.value: v for k, v in zip(sc_calls[0].args[0].keys, sc_calls[0].args[0].values) if isinstance(k, ast.Constant)}
+    if not isinstance(hmap.get("H"), ast.Name):
+        raise AnalysisError(RULE, "block_diagonalize: the input series is not handed to series_computation as {'H': <local>}")
+    HN = hmap["H"].id
+    scope_dicts = [n for n in own_nodes(f) if isinstance(n, ast.Assign) and isinstance(n.value, ast.Dict)
+                   and any(isinstance(k, ast.Constant) and k.value == "use_linear_operator" for k in n.value.keys if k is not None)]
+    if len(scope_dicts) != 1:
+        raise AnalysisError(RULE, "block_diagonalize: scope dictionary with a 'use_linear_operator' entry not found")
+    ulo_v = {k.value: v for k, v in zip(scope_dicts[0].value.keys, scope_dicts[0].value.values) if isinstance(k, ast.Constant)}["use_linear_operator"]
+    if not isinstance(ulo_v, ast.Name):
+        raise AnalysisError(RULE, "block_diagonalize: scope['use_linear_operator'] is not a local")
+    ULO = ulo_v.id
     # (b) LinearOperator dispatch mask
-    ulo = [norm(a.value) for a in asg.get("use_linear_operator", [])]
-    rep.check(ulo == ["np.zeros(H.shape, dtype=bool)"], RULE, f"{MOD}::block_diagonalize use_linear_operator starts all-False over the block grid", str(ulo), loc(f))
+    ulo = [norm(a.value) for a in asg.get(ULO, [])]
+    rep.check(ulo == [f"np.zeros({HN}.shape, dtype=bool)"], RULE, f"{MOD}::block_diagonalize use_linear_operator starts all-False over the block grid", str(ulo), loc(f))
     sets = [n for n in own_nodes(f) if isinstance(n, ast.Assign) and isinstance(n.targets[0], ast.Subscript)
-            and norm(n.targets[0].value) == "use_linear_operator"]
+            and norm(n.targets[0].value) == ULO]
     from .sem import canon as _canon8
     def last_block_is_operator(test):
         """isinstance(H[-1, -1, *<zeroth order>], sparse.linalg.LinearOperator), the tested element possibly through a local"""
-        t = _canon8(resolved(test, {k_: v_ for k_, v_ in env_at(sets[0]._parent, f).items() if k_ != "H"}))
+        t = _canon8(resolved(test, {k_: v_ for k_, v_ in env_at(sets[0]._parent, f).items() if k_ != HN}))
         if not (isinstance(t, ast.Call) and call_name(t) == "isinstance" and len(t.args) == 2 and norm(t.args[1]) == "sparse.linalg.LinearOperator"):
             return False
         e = t.args[0]
-        if not (isinstance(e, ast.Subscript) and norm(e.value) == "H" and isinstance(e.slice, ast.Tuple) and len(e.slice.elts) == 3):
+        if not (isinstance(e, ast.Subscript) and norm(e.value) == HN and isinstance(e.slice, ast.Tuple) and len(e.slice.elts) == 3):
             return False
         a_, b_, z_ = e.slice.elts
         zt = norm(z_.value) if isinstance(z_, ast.Starred) else ""
-        return norm(a_) == "-1" and norm(b_) == "-1" and (zt == "zero_order" or (zt.startswith("(0,) * ") and zt.endswith(".n_infinite")))
+        return norm(a_) == "-1" and norm(b_) == "-1" and zt.startswith("(0,) * ") and zt.endswith(".n_infinite")
     ok = len(sets) == 1 and norm(sets[0].targets[0].slice) == "(-1, -1)" and norm(sets[0].value) == "True" \
         and isinstance(sets[0]._parent, ast.If) and last_block_is_operator(sets[0]._parent.test)
     rep.check(ok, RULE, f"{MOD}::block_diagonalize marks exactly the (last, last) block as LinearOperator-valued, iff its zeroth order is one",
@@ -79,7 +96,7 @@ def rule_implicit_wiring(rep: Report, repo: Repo):
         and kw(c[0]).get("nonhermitian") == "not hermitian"
     rep.check(ok, RULE, f"{MOD}::block_diagonalize direct solver gets H_0, the (R, L) subspaces and nonhermitian = not hermitian", "", loc(c[0] if c else f))
     c = calls.get("solve_sylvester_KPM", [])
-    ok = len(c) == 1 and pos(c[0]) == [H0, "right_subspaces"] and kw(c[0]).get("solver_options") == "solver_options"
+    ok = len(c) == 1 and pos(c[0]) == [H0, RS] and kw(c[0]).get("solver_options") == "solver_options"
     rep.check(ok, RULE, f"{MOD}::block_diagonalize KPM solver gets H_0 and the explicit subspaces", "", loc(c[0] if c else f))
     c = calls.get("operator_to_BlockSeries", [])
     k = kw(c[0]) if c else {}
@@ -88,10 +105,15 @@ def rule_implicit_wiring(rep: Report, repo: Repo):
         and k.get("symbols") == "symbols"
     rep.check(ok, RULE, f"{MOD}::block_diagonalize normalises H with the same subspaces, implicit flag and hermitian flag", str(k), loc(c[0] if c else f))
     c = calls.get("_extract_diagonal", [])
-    ok = len(c) == 1 and pos(c[0]) == ["H", "atol", UI, "operators"]
+    from .sem import Scope as _Scope8, kwcalls as _kwcalls8
+    ok = False
+    if len(c) == 1:
+        kc = _kwcalls8(c[0], _Scope8(repo.trees[MOD], None))
+        kk = {k_.arg: norm(k_.value) for k_ in kc.keywords}
+        ok = [norm(a_) for a_ in kc.args] == [HN] and kk.get("atol") == "atol" and kk.get("implicit") == UI and "operators" in kk
     rep.check(ok, RULE, f"{MOD}::block_diagonalize energies are extracted from the explicit blocks only (implicit flag passed)", "", loc(c[0] if c else f))
     ed = repo.find(f"{MOD}::_extract_diagonal", RULE)
-    di = [n for n in own_nodes(ed) if isinstance(n, ast.Assign) and norm(n.targets[0]) == "diag_indices"]
+    di = [n for n in own_nodes(ed) if isinstance(n, ast.Assign) and "np.arange(" in norm(n.value) and isinstance(n.targets[0], ast.Name)]
     ok = len(di) == 1 and norm(di[0].value) == "np.arange(operator.shape[0] - implicit)"
     rep.check(ok, RULE, f"{MOD}::_extract_diagonal skips exactly the last block in implicit mode", norm(di[0].value) if di else "", repo.loc(MOD, ed))
     # the custom-solver case: h_0 taken from the un-projected Hamiltonian at order zero
@@ -123,6 +145,11 @@ def rule_implicit_wiring(rep: Report, repo: Repo):
             ok = body is not None and norm(body) == f"aslinearoperator({orig}[{idx}])"
     rep.check(bool(ok), RULE, "algorithm_parsing::series_computation linear-operator view wraps the same element of the original series",
               "", loc2(low[0] if low else sc))
+    from .e9 import exec_scope_table as _est
+    _entries0 = _est(repo, RULE)[0]
+    if not isinstance(_entries0.get("linear_operator_series"), ast.Name) or not isinstance(_entries0.get("series"), ast.Name):
+        raise AnalysisError(RULE, "series_computation: the exec scope does not bind 'series' / 'linear_operator_series' to locals")
+    LOS, SER = _entries0["linear_operator_series"].id, _entries0["series"].id  # the two families, by role
     d = [x for x in nested_defs(sc) if x.name == "del_"]
     if len(d) != 1 or len(d[0].args.args) != 2:
         raise AnalysisError(RULE, "series_computation: del_(series_name, index) not found")
@@ -135,17 +162,17 @@ def rule_implicit_wiring(rep: Report, repo: Repo):
             raise AnalysisError(RULE, "del_: a loop that is not over a display of known length")
         if pops:
             per_path.append(pops)
-    want = sorted([f"series[{NP}].pop({IP}, None)", f"linear_operator_series[{NP}].pop({IP}, None)"])
+    want = sorted([f"{SER}[{NP}].pop({IP}, None)", f"{LOS}[{NP}].pop({IP}, None)"])
     ok = bool(per_path) and all(p_ == want for p_ in per_path)
     rep.check(ok, RULE, "algorithm_parsing::series_computation del_ drops the term from both caches", str(per_path), loc2(d[0]))
     # products: one loop over the two families, each product built from the same family's factors
     loops = [n for n in own_nodes(sc) if isinstance(n, ast.For) and isinstance(n.target, ast.Name) and isinstance(n.iter, (ast.Tuple, ast.List))
-             and [norm(e) for e in n.iter.elts] == ["series", "linear_operator_series"]]
+             and [norm(e) for e in n.iter.elts] == [SER, LOS]]
     ok = len(loops) == 1
     if ok:
         W = loops[0].target.id
         outer = getattr(loops[0], "_parent", None)
-        P = outer.target.id if isinstance(outer, ast.For) and isinstance(outer.target, ast.Name) and norm(outer.iter) == "products" else None
+        P = outer.target.id if isinstance(outer, ast.For) and isinstance(outer.target, ast.Name) and isinstance(outer.iter, ast.Name) else None
         stores = [st for st in own_nodes(loops[0]) if isinstance(st, ast.Assign) and isinstance(st.targets[0], ast.Subscript) and norm(st.targets[0].value) == W]
         ok = P is not None and len(stores) == 1 and rtext(stores[0].targets[0].slice, _ea(stores[0], sc)) == f"{P}.name"
         if ok:
@@ -160,24 +187,30 @@ def rule_implicit_wiring(rep: Report, repo: Repo):
               "same factor names, operator and hermitian flag", loc2(loops[0] if loops else sc))
     # every computed series gets its linear-operator view: linear_operator_series[term.name] = linear_operator_wrapped(<the series stored under term.name>)
     reg = [n for n in own_nodes(sc) if isinstance(n, ast.Assign) and isinstance(n.targets[0], ast.Subscript)
-           and norm(n.targets[0].value) == "linear_operator_series" and isinstance(getattr(n, "_parent", None), ast.For)]
+           and norm(n.targets[0].value) == LOS and isinstance(getattr(n, "_parent", None), ast.For)]
     ok = len(reg) == 1 and isinstance(reg[0].value, ast.Call) and call_name(reg[0].value) == "linear_operator_wrapped" and len(reg[0].value.args) == 1
     if ok:
         key = norm(reg[0].targets[0].slice)
         arg = reg[0].value.args[0]
         same_loop = [n for n in reg[0]._parent.body if isinstance(n, ast.Assign) and isinstance(n.targets[0], ast.Subscript)
-                     and norm(n.targets[0].value) == "series" and norm(n.targets[0].slice) == key]
-        ok = len(same_loop) == 1 and (norm(arg) == f"series[{key}]" or norm(arg) == norm(same_loop[0].value))
+                     and norm(n.targets[0].value) == SER and norm(n.targets[0].slice) == key]
+        ok = len(same_loop) == 1 and (norm(arg) == f"{SER}[{key}]" or norm(arg) == norm(same_loop[0].value)
+                                      or rtext(arg, _ea(reg[0], sc)) == rtext(same_loop[0].value, _ea(same_loop[0], sc)))
     rep.check(bool(ok), RULE, "algorithm_parsing::series_computation every computed series gets its linear-operator view", "", loc2(reg[0] if reg else sc))
-    ini = [n for n in own_nodes(sc) if isinstance(n, ast.Assign) and norm(n.targets[0]) == "linear_operator_series"]
-    ok = len(ini) == 1 and rtext(ini[0].value, {}) == "{_v0: linear_operator_wrapped(_v1) for _v0, _v1 in series.items()}"
+    ini = [n for n in own_nodes(sc) if isinstance(n, ast.Assign) and norm(n.targets[0]) == LOS]
+    ok = len(ini) == 1 and rtext(ini[0].value, {}) == f"{{_v0: linear_operator_wrapped(_v1) for _v0, _v1 in {SER}.items()}}"
     rep.check(ok, RULE, "algorithm_parsing::series_computation every input series gets its linear-operator view", "", loc2(ini[0] if ini else sc))
     from .e9 import exec_scope_table, rule_exec_scope
     entries, user_last, es_node, has_user = exec_scope_table(repo, RULE)
     es = [es_node]
     env_es = _ea(es_node, sc)
     ulo = entries.get("use_linear_operator")
-    SH = norm(_res(ast.Name(id="shape", ctx=ast.Load()), env_es))  # what the block grid of the series is
+    # what the block grid of the series is: the `shape` every series of the computation is constructed with
+    shp_kw = {norm(_res(k_.value, _ea(c_, sc))) for c_ in own_nodes(sc) if isinstance(c_, ast.Call) and call_name(c_) in ("BlockSeries", "dict")
+              for k_ in c_.keywords if k_.arg == "shape"}
+    if len(shp_kw) != 1:
+        raise AnalysisError(RULE, f"series_computation: the common shape of the series is not one expression ({sorted(shp_kw)})")
+    SH = shp_kw.pop()
     ok = ulo is not None and norm(_res(ulo, env_es)) in (f"np.zeros({SH}, dtype=bool)", f"np.zeros({SH}, bool)", f"np.zeros({SH}, dtype=np.bool_)",
                                                          f"np.full({SH}, False)") \
         and "offdiag" in entries and norm(entries["offdiag"]) == "None"
